@@ -191,7 +191,7 @@ def eval_conc(ctx, r, cfg, nodes, meta):
     order = []
     for e in ev[cb:]:
         if e.get('e') == 'up':
-            pushed_n.append(e['n'])
+            pushed_n.append(e.get('np', e['n']))
         elif e.get('e') == 'rxc':
             for pm in pk.get(e['pkt'], []):
                 m.on_uplink(pm['addr'], pm['type'], pm['data'])
